@@ -54,7 +54,7 @@ PlanOf(name) ==
          [Small EXCEPT !.ops = {"AddImage", "AddResource", "AddTable", "AddCellImage", "RemovePic", "Other", "Reopen"},
                        !.SizeNs = {"wkeep"}, !.Cells = {<<0, 1>>, <<1, 0>>}, !.dq = 3, !.dt = 4]
     [] name = "sizes" ->        \* the sizing rules on every path: every size configuration, images of several aspect ratios
-         [Small EXCEPT !.ops = {"AddImage", "AddTable", "AddCellImage"}, !.Toks = IF Q THEN {"P3"} ELSE {"P3", "J2", "G3"},
+         [Small EXCEPT !.ops = {"AddImage", "AddTable", "AddCellImage"}, !.Toks = IF Q THEN {"P3"} ELSE {"P3", "J2"},
                        !.SizeNs = SizeNames, !.Vias = {"data", "file"}, !.CellVias = {"cfg-data", "data"},
                        !.Cells = {<<1, 1>>}, !.dq = 2, !.dt = 2]
     [] name = "sizes2" ->       \* ... floating pictures, the file forms of the cell calls, after a reopen
@@ -64,14 +64,17 @@ PlanOf(name) ==
     [] name = "names" ->        \* file names of every class; equal names for different images
          [Small EXCEPT !.ops = {"AddImage", "AddResource", "Reopen"}, !.Toks = {"P1", "G1"},
                        !.NameCls = IF Q THEN {"png", "jpg", "noext", "cjk", "internal0", "dotdot"} ELSE AllNames,
-                       !.SizeNs = {"nil"}, !.Vias = IF Q THEN {"data"} ELSE {"data", "file"}, !.dq = 2, !.dt = 2]
+                       !.SizeNs = {"nil"}, !.dq = 2, !.dt = 2]
+    [] name = "names2" ->       \* ... read from files of those names
+         [Small EXCEPT !.ops = {"AddImage"}, !.Toks = {"P1", "G1"}, !.NameCls = AllNames, !.SizeNs = {"nil"}, !.Vias = {"file"},
+                       !.dq = 0, !.dt = 2]
     [] name = "foreign" ->      \* foreign packages with unusual media names, then additions
          [Small EXCEPT !.ops = IF Q THEN {"OpenForeign", "AddImage", "AddResource", "Other", "Reopen"}
                                 ELSE {"OpenForeign", "AddImage", "AddResource", "AddTable", "AddCellImage", "Other", "Reopen"},
                        !.Toks = {"P1"}, !.SizeNs = {"wkeep"}, !.Cells = {<<0, 0>>},
                        !.Shapes = IF Q THEN {"gap", "upper", "jpg", "noext"} ELSE ShapeNames, !.dq = 3, !.dt = 3]
     [] name = "foreign2" ->     \* long enough to reach every counter value the shapes leave open
-         [Small EXCEPT !.ops = {"OpenForeign", "AddImage", "AddResource", "Reopen"}, !.Toks = {"P1", "J2", "G1"},
+         [Small EXCEPT !.ops = {"OpenForeign", "AddImage", "AddResource", "Reopen"}, !.Toks = {"P1", "J2"},
                        !.SizeNs = {"nil"}, !.Shapes = {"gap", "upper", "jpg"}, !.dq = 0, !.dt = 4]
     [] name = "templates" ->    \* placeholders in body and cells, rendered through every path
          [Small EXCEPT !.ops = {"AddImage", "AddTable", "AddPlaceholder", "AddCellPlaceholder", "Render", "RenderString", "Reopen"},
@@ -91,8 +94,11 @@ PlanOf(name) ==
     [] name = "setters" ->      \* the setters on ImageInfo handles and failing cell calls change nothing
          [Small EXCEPT !.ops = {"AddImage", "AddTable", "AddCellImage", "BadCell", "Info", "Save", "Reopen"}, !.Toks = {"P1"},
                        !.SizeNs = {"wh"}, !.Cells = {<<0, 0>>}, !.InfoNs = IF Q THEN {"ResizeImage", "SetImageAlignment", "SetImagePosition"} ELSE InfoOps,
-                       !.Hs = {"nil", "last"},
-                       !.dq = 2, !.dt = 3]
+                       !.Hs = {"nil", "last"}, !.dq = 2, !.dt = 2]
+    [] name = "setters3" ->     \* ... one step deeper with the setters that touch size, position and the paragraph
+         [Small EXCEPT !.ops = {"AddImage", "AddTable", "AddCellImage", "BadCell", "Info", "Save", "Reopen"}, !.Toks = {"P1"},
+                       !.SizeNs = {"wh"}, !.Cells = {<<0, 0>>}, !.InfoNs = {"ResizeImage", "SetImageAlignment", "SetImagePosition"},
+                       !.dq = 0, !.dt = 3]
     [] name = "mc" ->           \* the exhaustive check of the reference machine
          [Small EXCEPT !.CellVias = {"cfg-data", "data"}, !.Slots = {1, 2}, !.DataNs = {"d1", "d2"}, !.Keeps = {FALSE, TRUE},
                        !.Shapes = IF Q THEN {"gap", "upper", "noext"} ELSE ShapeNames,
